@@ -5,19 +5,32 @@
    model/Jwt.v and model/Base64url.v; JWK export / import on key material:
    model/Jwk.v, proofs/JwkProofs.v (section "JWK sets"); the JSON TEXT layer
    (bytes -> value, as structpb.Struct.UnmarshalJSON / protojson does it):
-   model/Json.v, proofs/JsonLexProofs.v, proofs/JsonProofs.v (section "JSON
-   text" at the end).
+   model/Json.v, proofs/JsonLexProofs.v, proofs/JsonProofs.v, proofs/JsonNumProofs.v
+   (number literals: what the model decides, what is left to the float oracle),
+   proofs/JsonSpecProofs.v (UTF-8, escapes, surrogate pairs against
+   specifications written from RFC 3629 / 8259 / 2781) (section "JSON text" at
+   the end).
 
    sig_valid (raw MAC / signature verification of one key) and json_parse
    (structpb JSON parsing) are arbitrary functions: every theorem of the first
    sections holds for all of them.  The last section instantiates json_parse
-   with the model's own parser of the JSON text (Json.json_parse_text); its
-   only parameter is num, the float64 view of a number literal that is not an
-   integer below 2^53 (those the model converts itself).
+   with the model's own parser of the JSON text, Json.json_parse_text num.  ONE
+   JSON parameter is left, and it DOES decide verdicts: num, the float64 view
+   (int64 of the value + shortest decimal text) of a number literal.  The
+   theorems of that section hold for every num (num occurs on both sides of
+   every iff).  Property C09 is run with num := num_x num0 (json_parse_x):
+   there the model itself fixes the view of every literal - in any spelling -
+   whose value is an integer of magnitude below 2^53, is zero, rounds to zero,
+   or is out of the float64 range; num0 (strconv.ParseFloat at run time, the
+   same function protojson calls) is asked only for values that are not
+   integers and for integers from 2^53 up (subsection "numbers"): a token whose
+   exp / nbf / iat or any other number is written that way gets the verdict
+   the oracle's answer implies, and the model follows it.
    Times: claims in seconds, clock and skew in nanoseconds. *)
 From Coq Require Import List NArith ZArith Bool.
 From Coq Require String.
-From Tink Require Import Bytes Base64url Jwt JwtSpec JwtProofs Jwk JwkProofs Json JsonLexProofs JsonProofs.
+From Tink Require Import Bytes Base64url Jwt JwtSpec JwtProofs Jwk JwkProofs Json JsonLexProofs JsonProofs
+  JsonNumProofs JsonSpecProofs.
 Import ListNotations.
 Open Scope N_scope.
 
@@ -784,11 +797,19 @@ Theorem C09_json_text_accepted_exactly :
 Proof. exact json_parse_text_spec. Qed.
 Print Assumptions C09_json_text_accepted_exactly.
 
-(* fully declarative: spells (JsonLexProofs.v) is the RFC 8259 token grammar -
-   whitespace, the text of a token (tok_text: punctuation, the three literals,
-   a string literal = quote, items of str_item, quote; a number literal =
-   num_spells of a well-formed numlit whose float view exists), a delimiter or
-   the end after a literal or a number - and nothing else *)
+(* through a declarative relation: spells (JsonLexProofs.v) is an inductive
+   token grammar - whitespace, the text of a token (tok_text: punctuation, the
+   three literals, a string literal = quote, items of str_item, quote; a number
+   literal = num_spells of a well-formed numlit whose float view num gives
+   exists), a delimiter or the end after a literal or a number - and nothing
+   else.  It is RFC 8259 in STRUCTURE, and it also encodes three things that
+   are protojson's rather than the RFC's: the delimiter look-ahead after
+   literals and numbers (tok_follow / is_not_delim), the pairing of surrogate
+   escapes (a lone surrogate escape is refused), and the float64 range of
+   numbers (through num).  Its leaves are shared with the parser (str_item uses
+   the parser's byte-range tests, simple_escape, hex4, pair_cp, utf8_enc; is_ws;
+   delim_next): subsection "the leaves against the RFCs" below ties each of
+   them to a specification written independently (str_item <-> str_item_rfc). *)
 Theorem C09_json_accepted_texts_are_exactly_the_spellings_of_good_objects :
   forall num s f,
     json_parse_text num s = Some f <->
@@ -899,7 +920,8 @@ Proof.
 Qed.
 Print Assumptions C09_json_tokens_and_whitespace.
 
-(* the four whitespace bytes, and only they *)
+(* the four whitespace bytes, and only they (a restatement of the definition
+   of is_ws as a literal set: RFC 8259 section 2; not counted as a result) *)
 Theorem C09_json_whitespace_bytes :
   forall c, is_ws c = true <-> c = 32 \/ c = 9 \/ c = 10 \/ c = 13.
 Proof. exact is_ws_spec. Qed.
@@ -954,7 +976,8 @@ Theorem C09_json_integers_below_2_53_need_no_oracle :
 Proof. intros num z H. apply lex_print_zint. apply Z.ltb_lt. exact H. Qed.
 Print Assumptions C09_json_integers_below_2_53_need_no_oracle.
 
-(* the parse is a function of the text and of the float view of the inexact literals only *)
+(* extensionality in the oracle (near-tautology, not counted as a result; the
+   informative statement is C09_json_parse_depends_on_the_oracle_only_at_undecided_literals) *)
 Theorem C09_json_parse_is_a_function_of_the_text :
   forall num1 num2 s, (forall l, num1 l = num2 l) -> json_parse_text num1 s = json_parse_text num2 s.
 Proof. exact json_parse_text_ext. Qed.
@@ -974,11 +997,257 @@ Theorem C09_json_printed_text_is_a_byte_string :
 Proof. exact print_value_wfb. Qed.
 Print Assumptions C09_json_printed_text_is_a_byte_string.
 
+(* ---- numbers: what the model decides, what the float oracle decides ---- *)
+(* A number literal l (numlit: sign, integer digits, fraction digits, signed
+   exponent digits) has the rational value  (-1)^neg * lit_num l / lit_den l,
+     lit_num l = (integer digits ++ fraction digits, read in base 10) * 10^max(e,0)
+     lit_den l = 10^max(-e,0)      e = exponent - number of fraction digits.
+   lit_class l sorts it, by exact integer arithmetic, into
+     NCInt z      the float64 of the literal is the integer z: the view is (z, no residual text)
+     NCOverflow   the float64 would be infinite: the text is refused
+     NCOracle     the oracle num is asked
+   num_x num is the number view property C09 runs with, json_parse_x num =
+   json_parse_text (num_x num) the parser.  lit_ok l: the digit strings are
+   digit strings (every literal the tokenizer produces is lit_ok:
+   C09_json_number_literal_grammar); int_digits_ok l: the integer part has at
+   most 800 digits. *)
+
+(* how the decimal data is read: the digits before and after the point form
+   one integer, the point moves the exponent; a digit string is read in base 10
+   from the left (dec_val), an absent exponent is 0 *)
+Theorem C09_json_literal_value_reading :
+  forall l,
+    lit_mant l = dec_val (nl_int l) * 10 ^ N.of_nat (length (nl_frac l)) + dec_val (nl_frac l)
+    /\ lit_exp10 l = (exp_val (nl_exp l) - Z.of_nat (length (nl_frac l)))%Z
+    /\ lit_num l = lit_mant l * 10 ^ Z.to_N (lit_exp10 l) /\ lit_den l = 10 ^ Z.to_N (- lit_exp10 l)
+    /\ (forall ds d, dec_val (ds ++ [d]) = dec_val ds * 10 + (d - 48)) /\ dec_val [] = 0.
+Proof.
+  intros l. destruct (lit_value_reading l) as [A B]. split; [exact A|]. split; [exact B|].
+  split; [reflexivity|]. split; [reflexivity|]. split; [exact dec_val_app|reflexivity].
+Qed.
+Print Assumptions C09_json_literal_value_reading.
+
+(* EXACTLY the literals whose value is an integer of magnitude below 2^53
+   (with the literal's sign; "-0" is 0), or is not zero but at most 2^-1075 (a
+   float64 conversion rounds it to zero, without error), are decided as
+   integers - whatever the spelling: 1700003600.0, 17000036e2, 1.7000036E+9,
+   100e-2, 0e99, 1e-400.  Such an integer is exactly representable as a
+   float64, so a correctly rounded conversion returns it and int64 of it is z:
+   that strconv.ParseFloat is correctly rounded on these literals is the part
+   the correspondence run checks (the harness number family). *)
+Theorem C09_json_integer_valued_literals_are_decided_exactly :
+  forall l z, lit_ok l -> int_digits_ok l ->
+    (lit_class l = NCInt z <->
+     (Z.abs_N z < 9007199254740992 /\ z = lit_sign l (Z.abs_N z)
+      /\ (lit_num l = Z.abs_N z * lit_den l
+          \/ (z = 0%Z /\ 0 < lit_num l /\ lit_num l * 2 ^ 1075 <= lit_den l)))).
+Proof. intros l z OK LEN. exact (lit_class_int l OK LEN z). Qed.
+Print Assumptions C09_json_integer_valued_literals_are_decided_exactly.
+
+(* EXACTLY the literals of magnitude >= 2^1024 - 2^970 (the midpoint of the
+   largest finite float64 and 2^1024: round-to-nearest-even gives infinity
+   from there on) are refused *)
+Theorem C09_json_overflowing_literals_are_decided_exactly :
+  forall l, lit_ok l -> int_digits_ok l ->
+    (lit_class l = NCOverflow <-> (2 ^ 1024 - 2 ^ 970) * lit_den l <= lit_num l)
+    /\ 2 * (2 ^ 1024 - 2 ^ 970) = (2 ^ 53 - 1) * 2 ^ 971 + 2 ^ 1024.
+Proof. intros l OK LEN. split; [exact (lit_class_overflow l OK LEN)|exact f64_over_is_the_midpoint]. Qed.
+Print Assumptions C09_json_overflowing_literals_are_decided_exactly.
+
+(* the oracle is asked exactly for the rest: values that are not integers
+   (and do not round to zero), integers of magnitude >= 2^53 below the overflow
+   bound - and every literal whose integer part has more than 800 digits
+   (strconv.ParseFloat mis-scales those: see model/Json.v) *)
+Theorem C09_json_literals_left_to_the_oracle :
+  forall l,
+    (lit_ok l -> int_digits_ok l ->
+       (lit_class l = NCOracle <-> (forall z, ~ lit_is_int l z) /\ ~ lit_overflows l))
+    /\ (~ int_digits_ok l -> lit_class l = NCOracle).
+Proof. intros l. split; [exact (lit_class_oracle l)|exact (lit_class_long l)]. Qed.
+Print Assumptions C09_json_literals_left_to_the_oracle.
+
+(* a decided literal has the same view under every oracle; the old exact path
+   (integer literal without fraction and exponent, below 2^53) is a special
+   case, so num_x num is a legitimate num for every theorem above *)
+Theorem C09_json_decided_literals_need_no_oracle :
+  forall num,
+    (forall l z, lit_class l = NCInt z -> num_x num l = Some (z, []))
+    /\ (forall l, lit_class l = NCOverflow -> num_x num l = None)
+    /\ (forall l, lit_class l = NCOracle -> num_x num l = num l)
+    /\ (forall l z, lit_plain l = Some z -> lit_class l = NCInt z)
+    /\ (forall l, num_value (num_x num) l = num_x num l).
+Proof.
+  intros num. split; [intros l z H; unfold num_x; rewrite H; reflexivity|].
+  split; [intros l H; unfold num_x; rewrite H; reflexivity|].
+  split; [intros l H; unfold num_x; rewrite H; reflexivity|].
+  split; [exact lit_plain_class|exact (num_value_x num)].
+Qed.
+Print Assumptions C09_json_decided_literals_need_no_oracle.
+
+(* text_lits s: the number literals the tokenizer meets in s, in order;
+   oracle_lits s: those of class NCOracle.  The parse of ANY text depends on
+   the oracle through its answers on oracle_lits s only *)
+Theorem C09_json_parse_depends_on_the_oracle_only_at_undecided_literals :
+  forall num1 num2 s,
+    (forall l, In l (oracle_lits s) -> num1 l = num2 l) ->
+    json_parse_x num1 s = json_parse_x num2 s.
+Proof. exact json_parse_x_dep. Qed.
+Print Assumptions C09_json_parse_depends_on_the_oracle_only_at_undecided_literals.
+
+(* text_decided s: no literal of s is left to the oracle *)
+Theorem C09_json_decided_text_needs_no_oracle :
+  forall num1 num2 s, text_decided s = true -> json_parse_x num1 s = json_parse_x num2 s.
+Proof. exact json_parse_x_decided. Qed.
+Print Assumptions C09_json_decided_text_needs_no_oracle.
+
+(* WHICH VERDICTS DEPEND ON THE ORACLE.  jwt_json_parts tok = the decoded header
+   and payload texts verify hands to the JSON parser.  The verdict (accepted /
+   generic error / other error) and the returned claims of ANY token under ANY
+   keyset and validator depend on the oracle only through its answers on the
+   NCOracle literals of those two texts.  The JWT rules read numbers in exp,
+   nbf, iat only (payload_rule: 0 <= int64 <= 253402300799; validator_rule:
+   the comparisons with now and skew), so what the oracle can decide is: the
+   fate of a token whose exp / nbf / iat is written as a non-integer or as an
+   integer from 2^53 up; whether a text containing such a literal ANYWHERE is
+   accepted JSON at all (the oracle may answer None); and the value reported
+   for such a custom claim.  C09_text_oracle_decides_undecided_timestamps
+   below shows that this dependence is real. *)
+Theorem C09_text_verdict_depends_on_the_oracle_only_at_undecided_literals :
+  forall num1 num2 (sig_valid : N -> bytes -> bytes -> bool) keys o tok,
+    (forall part l, In part (jwt_json_parts tok) -> In l (oracle_lits part) -> num1 l = num2 l) ->
+    verify sig_valid (json_parse_x num1) keys o tok = verify sig_valid (json_parse_x num2) keys o tok.
+Proof. exact verify_x_oracle_dependence. Qed.
+Print Assumptions C09_text_verdict_depends_on_the_oracle_only_at_undecided_literals.
+
+(* token_decided tok: every number literal of the header and payload texts - at
+   any depth, in ANY spelling - is an integer below 2^53, zero, an underflow or
+   an overflow.  Then the verdict and the claims are the model's alone: the
+   same for every two oracles.  The same for a JWK set text. *)
+Theorem C09_text_verdict_of_a_decided_token_is_independent_of_the_oracle :
+  forall num1 num2 (sig_valid : N -> bytes -> bytes -> bool) keys o tok,
+    token_decided tok = true ->
+    verify sig_valid (json_parse_x num1) keys o tok = verify sig_valid (json_parse_x num2) keys o tok.
+Proof. exact verify_x_decided. Qed.
+Print Assumptions C09_text_verdict_of_a_decided_token_is_independent_of_the_oracle.
+
+Theorem C09_text_jwk_import_of_a_decided_text_is_independent_of_the_oracle :
+  forall num1 num2 on_curve s,
+    text_decided s = true ->
+    jwk_import_text (num_x num1) on_curve s = jwk_import_text (num_x num2) on_curve s.
+Proof. exact jwk_import_x_decided. Qed.
+Print Assumptions C09_text_jwk_import_of_a_decided_text_is_independent_of_the_oracle.
+
+(* ---- the leaves against the RFCs ---- *)
+(* The parser and the grammar str_item share their leaf functions.  Each leaf
+   is tied here to a specification written from the RFC text alone
+   (proofs/JsonSpecProofs.v), so that a wrong range, shift or table entry in
+   the shared function would make one of these theorems false. *)
+
+(* UTF-8, RFC 3629 section 3.  utf8_char u b: row by row the table of the RFC
+   (value range of the row, bit groups of u laid out in the 0xxxxxxx / 110xxxxx
+   10xxxxxx / 1110xxxx 10xxxxxx 10xxxxxx / 11110xxx 10xxxxxx 10xxxxxx 10xxxxxx
+   patterns; D800..DFFF excluded; at most 10FFFF).  utf8_decode: a decoder of
+   one sequence written from the same table.  The model's encoder utf8_enc
+   (used for \u escapes) and the decoder are inverse on ALL scalar values, and
+   utf8_enc u is the only encoding of u. *)
+Theorem C09_utf8_encoder_and_decoder_against_rfc3629 :
+  (forall b u, utf8_decode b = Some u <-> utf8_char u b)
+  /\ (forall u, scalar u -> utf8_decode (utf8_enc u) = Some u)
+  /\ (forall b u, utf8_decode b = Some u -> utf8_enc u = b /\ scalar u)
+  /\ (forall u b, utf8_char u b -> b = utf8_enc u /\ scalar u).
+Proof.
+  split; [exact utf8_decode_spec|]. split; [exact utf8_decode_enc|]. split; [exact utf8_enc_decode|].
+  intros u b H. split; [exact (utf8_char_enc u b H)|exact (utf8_char_scalar u b H)].
+Qed.
+Print Assumptions C09_utf8_encoder_and_decoder_against_rfc3629.
+
+(* the byte-range tests of the string lexer (and of Jwt.utf8_valid): a 1-, 2-,
+   3-, 4-byte sequence passes iff it is the RFC 3629 encoding of some value *)
+Theorem C09_json_utf8_byte_tests_are_rfc3629 :
+  (forall x, x < 128 <-> utf8_char x [x])
+  /\ (forall x y, inr 194 223 x && cont y = true <-> exists u, utf8_char u [x; y])
+  /\ (forall x y z,
+        inr 224 239 x && ((if x =? 224 then inr 160 191 y else if x =? 237 then inr 128 159 y else cont y) && cont z) = true
+        <-> exists u, utf8_char u [x; y; z])
+  /\ (forall x y z w,
+        inr 240 244 x && ((if x =? 240 then inr 144 191 y else if x =? 244 then inr 128 143 y else cont y) && cont z && cont w) = true
+        <-> exists u, utf8_char u [x; y; z; w]).
+Proof. split; [exact seq1_spec|]. split; [exact seq2_spec|]. split; [exact seq3_spec|exact seq4_spec]. Qed.
+Print Assumptions C09_json_utf8_byte_tests_are_rfc3629.
+
+(* valid UTF-8 (what the tokenizer requires of every text and yields in every
+   string) = a concatenation of RFC 3629 sequences = the encoding of a list of
+   scalar values *)
+Theorem C09_utf8_valid_is_concatenation_of_rfc3629_sequences :
+  forall s, (utf8_valid s = true <-> utf8_text s)
+            /\ (utf8_valid s = true <-> exists us, Forall scalar us /\ s = concat (map utf8_enc us)).
+Proof. intros s. split; [exact (utf8_valid_spec s)|exact (utf8_valid_enc s)]. Qed.
+Print Assumptions C09_utf8_valid_is_concatenation_of_rfc3629_sequences.
+
+(* the eight two-character escapes and the hex digits as literal tables
+   (RFC 8259 section 7); \uXXXX reads four hex digits in base 16 *)
+Theorem C09_json_escape_tables :
+  (forall e c, simple_escape e = Some c <->
+     In (e, c) [(34, 34); (92, 92); (47, 47); (98, 8); (102, 12); (110, 10); (114, 13); (116, 9)])
+  /\ (forall c v, hexval c = Some v <->
+        In (c, v) [(48, 0); (49, 1); (50, 2); (51, 3); (52, 4); (53, 5); (54, 6); (55, 7); (56, 8); (57, 9);
+                   (97, 10); (98, 11); (99, 12); (100, 13); (101, 14); (102, 15);
+                   (65, 10); (66, 11); (67, 12); (68, 13); (69, 14); (70, 15)])
+  /\ (forall a b c d u, hex4 a b c d = Some u <->
+        exists x y z w, hexval a = Some x /\ hexval b = Some y /\ hexval c = Some z /\ hexval d = Some w
+                        /\ u = x * 4096 + y * 256 + z * 16 + w).
+Proof.
+  split; [exact simple_escape_table|]. split; [exact hexval_table|].
+  intros a b c d u. rewrite hex4_table. unfold hex4_rfc.
+  split; intros [x [y [z [w [Ha [Hb [Hc [Hd E]]]]]]]]; exists x, y, z, w;
+    (repeat (split; [apply hexval_table; assumption|])); exact E.
+Qed.
+Print Assumptions C09_json_escape_tables.
+
+(* surrogate pairs: pair_cp is the inverse of the UTF-16 encoder of RFC 2781
+   section 2.1 (U' = U - 10000h; W1 = D800h + high ten bits, W2 = DC00h + low
+   ten bits), on exactly the high/low ranges; the example of RFC 8259
+   section 7 (U+1D11E = 𝄞) *)
+Theorem C09_json_surrogate_pairs_are_utf16 :
+  (forall hi lo u,
+     (is_high hi = true /\ is_low lo = true /\ u = pair_cp hi lo) <->
+     (65536 <= u <= 1114111 /\ hi = 55296 + (u - 65536) / 1024 /\ lo = 56320 + (u - 65536) mod 1024))
+  /\ (forall u, (is_surrogate u = true <-> 55296 <= u <= 57343)
+                /\ (is_high u = true <-> 55296 <= u <= 56319) /\ (is_low u = true <-> 56320 <= u <= 57343))
+  /\ pair_cp 55348 56606 = 119070.
+Proof. split; [exact pair_cp_spec|]. split; [exact surrogate_tests|reflexivity]. Qed.
+Print Assumptions C09_json_surrogate_pairs_are_utf16.
+
+(* protojson's delimiter rule after a literal or a number (isNotDelim), as a literal set *)
+Theorem C09_json_not_a_delimiter :
+  forall c, is_not_delim c = true <->
+    c = 45 \/ c = 43 \/ c = 46 \/ c = 95 \/ 97 <= c <= 122 \/ 65 <= c <= 90 \/ 48 <= c <= 57.
+Proof. exact is_not_delim_spec. Qed.
+Print Assumptions C09_json_not_a_delimiter.
+
+(* the string-literal grammar stated with the independent specifications only
+   (str_item_rfc: an unescaped scalar value from U+0020 on other than quote and
+   backslash, written in UTF-8 per utf8_char; backslash + a table entry;
+   \uXXXX of a non-surrogate, standing for its utf8_char encoding; a UTF-16
+   pair of \u escapes, standing for the utf8_char encoding of the value the
+   pair encodes per utf16_pair) is the grammar str_item of the theorems above,
+   and the string lexer accepts exactly its bodies *)
+Theorem C09_json_string_literal_grammar_from_the_rfcs :
+  (forall t o, str_item t o <-> str_item_rfc t o)
+  /\ (forall s o r, lex_string s = Some (o, r) <-> exists body, s = body ++ 34 :: r /\ str_body_rfc body o)
+  /\ (forall body o, str_body_rfc body o -> utf8_text o).
+Proof. split; [exact str_item_rfc_iff|]. split; [exact lex_string_grammar_rfc|exact str_body_rfc_text]. Qed.
+Print Assumptions C09_json_string_literal_grammar_from_the_rfcs.
+
 (* ---- the C09 theorems from TEXT ---- *)
 
 (* C09_verify_accepts_exactly_the_rule_conforming_tokens with the JSON parser
-   in place: the header and payload bytes must SPELL duplicate-free objects
-   within the recursion budget; no JSON parameter is left *)
+   in place, stated through the declarative grammar: the header and payload
+   bytes must SPELL (spells) duplicate-free objects within the recursion
+   budget.  The one JSON parameter left is num (both sides mention it: the
+   grammar admits a number token TNum z x for a literal l iff num_value num l
+   = Some (z, x)); with num := num_x num0 that view is fixed by the model for
+   every decided literal (subsection "numbers"). *)
 Theorem C09_text_verify_accepts_exactly_the_rule_conforming_tokens :
   forall num (sig_valid : N -> bytes -> bytes -> bool) keys o tok r,
     verify sig_valid (json_parse_text num) keys o tok = Some (VOk r) <->
@@ -988,32 +1257,34 @@ Theorem C09_text_verify_accepts_exactly_the_rule_conforming_tokens :
       /\ nodot h /\ nodot p /\ nodot s
       /\ b64_decode s = Some sg /\ sg <> []
       /\ b64_decode h = Some hb
-      /\ (lex num hb = Some (toks (JObj hdr)) /\ nodup_names (JObj hdr) = true
+      /\ (spells num (toks (JObj hdr)) hb /\ nodup_names (JObj hdr) = true
           /\ (jdepth (JObj hdr) <= recursion_limit)%nat)
       /\ b64_decode p = Some pb
-      /\ (lex num pb = Some (toks (JObj (r_payload r))) /\ nodup_names (JObj (r_payload r)) = true
+      /\ (spells num (toks (JObj (r_payload r))) pb /\ nodup_names (JObj (r_payload r)) = true
           /\ (jdepth (JObj (r_payload r)) <= recursion_limit)%nat)
       /\ (exists k, In k keys /\ kenabled k = true
                     /\ sig_valid (kref k) sg (h ++ dot :: p) = true /\ header_rule k hdr)
       /\ typ_rule hdr (r_typ r)
       /\ payload_rule (r_payload r)
       /\ validator_rule v (r_typ r) (r_payload r).
-Proof. exact verify_text_iff. Qed.
+Proof. exact verify_text_spells_iff. Qed.
 Print Assumptions C09_text_verify_accepts_exactly_the_rule_conforming_tokens.
 
-(* JWKSetToPublicKeysetHandle from the TEXT of the set *)
+(* JWKSetToPublicKeysetHandle from the TEXT of the set, through the grammar *)
 Theorem C09_text_jwk_import_accepts_exactly :
   forall num on_curve s l,
     jwk_import_text num on_curve s = Some l <->
     exists f vs,
-      (lex num s = Some (toks (JObj f)) /\ nodup_names (JObj f) = true
+      (spells num (toks (JObj f)) s /\ nodup_names (JObj f) = true
        /\ (jdepth (JObj f) <= recursion_limit)%nat)
       /\ lookup s_keys f = Some (JArr vs) /\ vs <> []
       /\ Forall2 (jwk_key_rule on_curve) vs l.
-Proof. exact jwk_import_text_spec. Qed.
+Proof. exact jwk_import_text_spells. Qed.
 Print Assumptions C09_text_jwk_import_accepts_exactly.
 
-(* text that is not accepted JSON; "keys" missing or not a list; empty list; one bad key *)
+(* text that is not accepted JSON (this first conjunct is immediate from the
+   definition of jwk_import_text; kept for the list); "keys" missing or not a
+   list; empty list; one bad key *)
 Theorem C09_text_jwk_import_rejections :
   forall num on_curve s,
     (json_parse_text num s = None -> jwk_import_text num on_curve s = None)
@@ -1035,12 +1306,17 @@ Theorem C09_text_jwk_import_handle_shape :
 Proof. exact jwk_import_handle_text_shape. Qed.
 Print Assumptions C09_text_jwk_import_handle_shape.
 
-(* C09_encode_then_verify_round_trips with the model's own printer and parser:
-   the two JSON laws (parse (print f) = Some f; the printed text is a byte
-   string) are theorems now.  What remains of them is that the payload at
-   hand lies in the printer's domain, a decidable condition on the claims;
-   the header always does. *)
-Theorem C09_text_encode_then_verify_round_trips :
+(* THE MODEL'S OWN PRINTER, not protojson's Marshal: C09_encode_then_verify_round_trips
+   with json_print_text and json_parse_text num in place of the printer /
+   parser parameters; the two JSON laws (parse (print f) = Some f; the printed
+   text is a byte string) are theorems now.  What remains of them is that the
+   payload at hand lies in the printer's domain, a decidable condition on the
+   claims; the header always does.  That the text Tink's encoder really emits
+   (protojson's output, whose format is deliberately unstable) lies in the
+   accepted set and parses to the same claims is NOT a theorem: it is checked
+   by the correspondence run, where the model parses the header / payload
+   bytes of every token SignAndEncode / ComputeMACAndEncode produced. *)
+Theorem C09_text_model_printer_encode_then_verify_round_trips :
   forall num (sig_valid : N -> bytes -> bytes -> bool) (sign : N -> bytes -> bytes),
     (forall kr m, sig_valid kr (sign kr m) m = true) ->
     (forall kr m, wfb (sign kr m)) ->
@@ -1053,7 +1329,7 @@ Theorem C09_text_encode_then_verify_round_trips :
       new_validator o = Some v -> validate v r = true ->
       verify sig_valid (json_parse_text num) keys o tok = Some (VOk r).
 Proof. intros num sv sg S1 S2 S3 keys k o v ro r tok. apply (encode_verify_roundtrip_text num sv sg); assumption. Qed.
-Print Assumptions C09_text_encode_then_verify_round_trips.
+Print Assumptions C09_text_model_printer_encode_then_verify_round_trips.
 
 (* ---- non-vacuity and concrete texts ---- *)
 Section JsonExample.
@@ -1077,7 +1353,7 @@ Section JsonExample.
     (* duplicate names: at depth 1, at depth 3, spelled with an escape *)
     /\ parse (bs "{""a"":1,""a"":2}") = None
     /\ parse (bs "{""x"":[{""k"":1,""k"":1}]}") = None
-    /\ parse (bs "{""a"":1,""a"":2}") = None
+    /\ parse (bs "{""a"":1,""\u0061"":2}") = None
     /\ parse (bs "{""a"":1,""A"":2}") = Some [(a, JNum 1 []); ([65], JNum 2 [])]
     (* trailing data / trailing whitespace *)
     /\ parse (bs "{}x") = None /\ parse (bs "{}{}") = None /\ parse (bs "{} ,") = None
@@ -1204,12 +1480,227 @@ Section JsonExample.
     assert (H5 : validate ov r0 = true) by (vm_compute; reflexivity).
     split; [exact H1|]. split; [exact H2|]. split; [exact H3|]. split; [exact H4|]. split; [exact H5|].
     split; [|vm_compute; reflexivity].
-    apply (C09_text_encode_then_verify_round_trips num0 sig_valid2 sign2) with (k := kt) (ro := ro) (v := ov);
+    apply (C09_text_model_printer_encode_then_verify_round_trips num0 sig_valid2 sign2) with (k := kt) (ro := ro) (v := ov);
       try assumption.
     - intros kr m. unfold sig_valid2. apply beq_refl.
     - intros kr m. unfold sign2. apply Forall_forall. intros x Hx. apply in_map_iff in Hx.
       destruct Hx as [y [<- _]]. apply N.mod_lt. discriminate.
     - intros kr m. unfold sign2. discriminate.
     - left. reflexivity.
+  Qed.
+
+  (* ---- numbers: the model decides, the oracle decides ---- *)
+  Let parse_x := json_parse_x num0.
+
+  (* every spelling of an integer below 2^53, of zero, of an underflow, of an
+     overflow is read WITHOUT the oracle (num0 refuses everything); what is
+     left to the oracle: 1.5, 2^53 *)
+  Example C09_json_number_spellings :
+    parse_x (bs "{""a"":[1700003600.0,17000036e2,1.7000036E+9,170000360000e-2,0.00000017000036e16,1e3,100e-2,-12.50e1]}")
+    = Some [(a, JArr [JNum 1700003600 []; JNum 1700003600 []; JNum 1700003600 []; JNum 1700003600 [];
+                      JNum 1700003600 []; JNum 1000 []; JNum 1 []; JNum (-125) []])]
+    /\ parse_x (bs "{""a"":[-0,-0.0e7,0e99999999999999999999,1e-400,-1e-400,2.4e-324,1e-99999999999999999999]}")
+       = Some [(a, JArr [JNum 0 []; JNum 0 []; JNum 0 []; JNum 0 []; JNum 0 []; JNum 0 []; JNum 0 []])]
+    /\ parse_x (bs "{""a"":9007199254740991.0}") = Some [(a, JNum 9007199254740991 [])]
+    (* out of range: refused by the model *)
+    /\ parse_x (bs "{""a"":1e400}") = None /\ parse_x (bs "{""a"":-1e309}") = None
+    /\ parse_x (bs "{""a"":1.7976931348623159e308}") = None /\ parse_x (bs "{""a"":1e99999999999999999999}") = None
+    /\ json_parse_x (fun _ => Some (7%Z, [])) (bs "{""a"":1e400}") = None
+    (* left to the oracle: this one refuses, that one answers *)
+    /\ parse_x (bs "{""a"":1.5}") = None /\ parse_x (bs "{""a"":9007199254740992}") = None
+    /\ parse_x (bs "{""a"":2.5e-324}") = None /\ parse_x (bs "{""a"":1.7976931348623158e308}") = None
+    /\ json_parse_x (fun _ => Some (1%Z, [49; 46; 53])) (bs "{""a"":[1.5,3.0]}") = Some [(a, JArr [JNum 1 [49; 46; 53]; JNum 3 []])]
+    (* the literals of a text, and those among them the oracle is asked for *)
+    /\ text_lits (bs "{""exp"":1.7000036e9,""x"":[1.5,-2]}")
+       = [mkLit false [49] [55; 48; 48; 48; 48; 51; 54] (Some (false, [57]));
+          mkLit false [49] [53] None; mkLit true [50] [] None]
+    /\ oracle_lits (bs "{""exp"":1.7000036e9,""x"":[1.5,-2]}") = [mkLit false [49] [53] None]
+    /\ text_decided (bs "{""exp"":1.7000036e9,""x"":[1.5,-2]}") = false
+    /\ text_decided (bs "{""exp"":1.7000036e9,""x"":[15e-1,-2]}") = false
+    /\ text_decided (bs "{""exp"":1.7000036e9,""x"":[150e-1,-2]}") = true.
+  Proof. repeat split; vm_compute; reflexivity. Qed.
+
+  (* the premises of the characterisation theorems are met by real literals:
+     1.7000036E+9 is well-formed, its value 17000036 * 10^2 / 1 is the integer
+     1700003600; 1e400 overflows; 1.5 is neither *)
+  Example C09_json_number_classes_nonvacuous :
+    let l1 := mkLit false [49] [55; 48; 48; 48; 48; 51; 54] (Some (false, [57])) in
+    let l2 := mkLit true [49] [] (Some (false, [52; 48; 48])) in
+    let l3 := mkLit false [49] [53] None in
+    (lit_ok l1 /\ int_digits_ok l1 /\ lit_num l1 = 1700003600 /\ lit_den l1 = 1
+     /\ lit_is_int l1 1700003600 /\ lit_class l1 = NCInt 1700003600)
+    /\ (lit_ok l2 /\ int_digits_ok l2 /\ lit_overflows l2 /\ lit_class l2 = NCOverflow)
+    /\ (lit_ok l3 /\ int_digits_ok l3 /\ lit_num l3 = 15 /\ lit_den l3 = 10 /\ lit_class l3 = NCOracle)
+    (* more than 800 integer digits: left to the oracle, whatever the value *)
+    /\ (let l4 := mkLit false (49 :: repeat 48 800) [] (Some (true, [56; 48; 48])) in
+        ~ int_digits_ok l4 /\ lit_class l4 = NCOracle).
+  Proof.
+    assert (D : forall ds, forallb is_digit ds = true -> digits_ok ds) by (intros ds H; exact H).
+    cbv zeta. split; [|split; [|split]].
+    - assert (OK : lit_ok (mkLit false [49] [55; 48; 48; 48; 48; 51; 54] (Some (false, [57])))).
+      { split; [right; exists 49, []; repeat split; discriminate|]. split; [reflexivity|]. split; [discriminate|reflexivity]. }
+      assert (LEN : int_digits_ok (mkLit false [49] [55; 48; 48; 48; 48; 51; 54] (Some (false, [57]))))
+        by (unfold int_digits_ok, max_int_digits; cbn; repeat constructor).
+      assert (C : lit_class (mkLit false [49] [55; 48; 48; 48; 48; 51; 54] (Some (false, [57]))) = NCInt 1700003600)
+        by (vm_compute; reflexivity).
+      split; [exact OK|]. split; [exact LEN|]. split; [vm_compute; reflexivity|]. split; [vm_compute; reflexivity|].
+      split; [|exact C].
+      apply (C09_json_integer_valued_literals_are_decided_exactly _ _ OK LEN). exact C.
+    - assert (OK : lit_ok (mkLit true [49] [] (Some (false, [52; 48; 48])))).
+      { split; [right; exists 49, []; repeat split; discriminate|]. split; [reflexivity|]. split; [discriminate|reflexivity]. }
+      assert (LEN : int_digits_ok (mkLit true [49] [] (Some (false, [52; 48; 48]))))
+        by (unfold int_digits_ok, max_int_digits; cbn; repeat constructor).
+      assert (C : lit_class (mkLit true [49] [] (Some (false, [52; 48; 48]))) = NCOverflow) by (vm_compute; reflexivity).
+      split; [exact OK|]. split; [exact LEN|]. split; [|exact C].
+      apply (lit_class_overflow _ OK LEN). exact C.
+    - split; [|split; [unfold int_digits_ok, max_int_digits; cbn; repeat constructor|repeat split; vm_compute; reflexivity]].
+      split; [right; exists 49, []; repeat split; discriminate|]. split; [reflexivity|exact I].
+    - split; [|vm_compute; reflexivity].
+      unfold int_digits_ok, max_int_digits. cbn [nl_int]. intros H.
+      change (S (List.length (repeat 48 800)) <= 800)%nat in H. rewrite repeat_length in H.
+      exact (Nat.nle_succ_diag_l _ H).
+  Qed.
+
+  (* THE DEPENDENCE IS REAL.  Header {"alg":"HS256"}, clock at 1700000000 s.
+     exp written 1700003600.5 is not an integer: three oracles, three verdicts
+     (refusal of the literal -> generic error; a view with int64 0 -> expired;
+     the view strconv gives -> accepted).  exp written 1.7000036e9 IS the
+     integer 1700003600: the model decides, the same three oracles agree. *)
+  Let tok_half := tok (bs "{""exp"":1700003600.5}").
+  Let tok_sci := tok (bs "{""exp"":1.7000036e9}").
+  Let view_half : bytes := bs "1.7000036005e+09".
+  Example C09_text_oracle_decides_undecided_timestamps :
+    token_decided tok_half = false
+    /\ verify sig_valid (json_parse_x (fun _ => None)) [k] o tok_half = Some VGeneric
+    /\ verify sig_valid (json_parse_x (fun _ => Some (0%Z, [48]))) [k] o tok_half = Some VOther
+    /\ verify sig_valid (json_parse_x (fun _ => Some (1700003600%Z, view_half))) [k] o tok_half
+       = Some (VOk (mkRaw None [([101; 120; 112], JNum 1700003600 view_half)]))
+    /\ token_decided tok_sci = true
+    /\ verify sig_valid (json_parse_x (fun _ => None)) [k] o tok_sci
+       = Some (VOk (mkRaw None [([101; 120; 112], JNum 1700003600 [])]))
+    /\ verify sig_valid (json_parse_x (fun _ => Some (0%Z, [48]))) [k] o tok_sci
+       = Some (VOk (mkRaw None [([101; 120; 112], JNum 1700003600 [])])).
+  Proof. repeat split; vm_compute; reflexivity. Qed.
+
+  (* the independence theorem USED: for EVERY oracle the token with exp
+     1.7000036e9 is accepted with exp = 1700003600 *)
+  Example C09_text_decided_token_for_every_oracle :
+    forall num, verify sig_valid (json_parse_x num) [k] o tok_sci
+                = Some (VOk (mkRaw None [([101; 120; 112], JNum 1700003600 [])])).
+  Proof.
+    intros num.
+    rewrite (C09_text_verdict_of_a_decided_token_is_independent_of_the_oracle num num0 sig_valid [k] o tok_sci)
+      by (vm_compute; reflexivity).
+    vm_compute. reflexivity.
+  Qed.
+
+  (* ---- the main text theorem USED: acceptance derived from the rules ---- *)
+  (* header {"alg":"HS256"}, payload  {"exp" : 1700003600, "aud":["a"]} (with
+     whitespace): every conjunct of the right-hand side is established (the
+     spelling through the grammar theorem, the rules through their reflection
+     theorems or directly), and the theorem gives the verdict *)
+  Example C09_text_acceptance_derived_from_the_rules :
+    verify sig_valid parse [k] o (tok (bs " {""exp"" : 1700003600, ""aud"":[""a""]}"))
+    = Some (VOk (mkRaw None [([101; 120; 112], JNum 1700003600 []); ([97; 117; 100], JArr [JStr a])])).
+  Proof.
+    assert (ND : forall s, forallb (fun c => negb (c =? dot)) s = true -> nodot s).
+    { intros s H In_. rewrite forallb_forall in H. specialize (H _ In_). rewrite N.eqb_refl in H. discriminate. }
+    set (hb := bs "{""alg"":""HS256""}").
+    set (pb := bs " {""exp"" : 1700003600, ""aud"":[""a""]}").
+    set (pl := [([101; 120; 112], JNum 1700003600 []); ([97; 117; 100], JArr [JStr a])]).
+    set (u := b64_encode hb ++ [dot] ++ b64_encode pb).
+    apply C09_text_verify_accepts_exactly_the_rule_conforming_tokens.
+    exists o. split; [apply C09_new_validator_option_rules; vm_compute; reflexivity|].
+    exists (b64_encode hb), (b64_encode pb), (b64_encode (7 :: u)), (7 :: u), hb, pb, [(bs "alg", JStr (bs "HS256"))].
+    split; [vm_compute; reflexivity|].
+    split; [apply ND; vm_compute; reflexivity|]. split; [apply ND; vm_compute; reflexivity|].
+    split; [apply ND; vm_compute; reflexivity|].
+    split; [vm_compute; reflexivity|]. split; [discriminate|].
+    split; [vm_compute; reflexivity|].
+    split.
+    { split; [apply C09_json_tokenizer_accepts_exactly_the_grammar; vm_compute; reflexivity|].
+      split; [reflexivity|]. apply Nat.leb_le. vm_compute. reflexivity. }
+    split; [vm_compute; reflexivity|].
+    split.
+    { cbn [r_payload]. split; [apply C09_json_tokenizer_accepts_exactly_the_grammar; vm_compute; reflexivity|].
+      split; [reflexivity|]. apply Nat.leb_le. vm_compute. reflexivity. }
+    split.
+    { exists k. split; [left; reflexivity|]. split; [reflexivity|]. split; [vm_compute; reflexivity|].
+      split; [vm_compute; reflexivity|]. split; [vm_compute; reflexivity|exact I]. }
+    split; [vm_compute; reflexivity|].
+    assert (PR : payload_rule pl) by (apply C09_payload_check_is_payload_rule; vm_compute; reflexivity).
+    split; [exact PR|].
+    apply (C09_validator_check_is_validator_rule o None pl PR). vm_compute. reflexivity.
+  Qed.
+
+  (* ---- the text-level JWK theorems on a concrete set ---- *)
+  (* the base point of P-256, custom kid "k1", use and key_ops present, with
+     whitespace and an escaped member name; on_curve knows this point only *)
+  Let g256 : bytes :=
+    [4; 107; 23; 209; 242; 225; 44; 66; 71; 248; 188; 230; 229; 99; 164; 64; 242; 119; 3; 125; 129; 45; 235;
+     51; 160; 244; 161; 57; 69; 216; 152; 194; 150; 79; 227; 66; 226; 254; 26; 127; 155; 142; 231; 235; 74;
+     124; 15; 158; 22; 43; 206; 51; 87; 107; 49; 94; 206; 203; 182; 64; 104; 55; 191; 81; 245].
+  Let oc (h : hsz) (pt : bytes) : bool := match h with H256 => beq pt g256 | _ => false end.
+  Let jwk_text (extra : bytes) : bytes :=
+    bs "{ ""keys"" : [ {""kty"":""EC"",""crv"":""P-256"",""alg"":""ES256"",""x"":""axfR8uEsQkf4vOblY6RA8ncDfYEt6zOg9KE5RdiYwpY"","
+    ++ bs """y"":""T-NC4v4af5uO5-tKfA-eFivOM1drMV7Oy7ZAaDe_UfU"",""kid"":""k1"",""use"":""sig"",""key_ops"":[""verify""]"
+    ++ extra ++ bs "} ] }".
+  Let pk := PubES H256 g256 (KCustom [107; 49]).
+
+  Example C09_text_jwk_nonvacuous :
+    jwk_import_text num0 oc (jwk_text []) = Some [pk]
+    (* the exact-acceptance theorem, left to right: the text spells an object
+       whose "keys" is a one-element list obeying the key rule *)
+    /\ (exists f vs,
+          (spells num0 (toks (JObj f)) (jwk_text []) /\ nodup_names (JObj f) = true
+           /\ (jdepth (JObj f) <= recursion_limit)%nat)
+          /\ lookup s_keys f = Some (JArr vs) /\ vs <> [] /\ Forall2 (jwk_key_rule oc) vs [pk])
+    (* the handle theorem: one drawn id, the key ENABLED and primary under it *)
+    /\ (exists ks, jwk_import_handle_text num0 oc [42] (jwk_text []) = Some (ks, 42)
+                   /\ map e_key ks = [KPub pk] /\ map e_id ks = [42]
+                   /\ Forall (fun en => e_status en = Enabled) ks)
+    (* the rejection theorem: each premise met by a real text *)
+    /\ (json_parse_text num0 (jwk_text (bs ",""kid"":""k2""")) = None
+        /\ jwk_import_text num0 oc (jwk_text (bs ",""kid"":""k2""")) = None)
+    /\ (json_parse_text num0 (bs "{""Keys"":[]}") = Some [(bs "Keys", JArr [])]
+        /\ (forall l, lookup s_keys [(bs "Keys", JArr [])] <> Some (JArr l))
+        /\ jwk_import_text num0 oc (bs "{""Keys"":[]}") = None)
+    /\ (json_parse_text num0 (bs "{""keys"":[]}") = Some [(s_keys, JArr [])]
+        /\ jwk_import_text num0 oc (bs "{""keys"":[]}") = None)
+    /\ (exists f vs v, json_parse_text num0 (jwk_text (bs ",""d"":""AQ""")) = Some f
+                       /\ lookup s_keys f = Some (JArr vs) /\ In v vs /\ import_key oc v = None
+                       /\ jwk_import_text num0 oc (jwk_text (bs ",""d"":""AQ""")) = None)
+    (* a number in a JWK set: decided by the model, no oracle *)
+    /\ text_decided (jwk_text (bs ",""n"":17000036e2")) = true
+    /\ jwk_import_text (num_x num0) oc (jwk_text (bs ",""n"":17000036e2")) = Some [pk].
+  Proof.
+    assert (I1 : jwk_import_text num0 oc (jwk_text []) = Some [pk]) by (vm_compute; reflexivity).
+    split; [exact I1|].
+    split; [apply C09_text_jwk_import_accepts_exactly; exact I1|].
+    split.
+    { destruct (C09_text_jwk_import_handle_shape num0 oc [42] (jwk_text []) [pk] I1 eq_refl) as [ks [H1 [H2 [H3 H4]]]].
+      exists ks. auto. }
+    split.
+    { assert (P : json_parse_text num0 (jwk_text (bs ",""kid"":""k2""")) = None) by (vm_compute; reflexivity).
+      split; [exact P|]. apply (C09_text_jwk_import_rejections num0 oc). exact P. }
+    split.
+    { assert (P : json_parse_text num0 (bs "{""Keys"":[]}") = Some [(bs "Keys", JArr [])]) by (vm_compute; reflexivity).
+      assert (L : forall l, lookup s_keys [(bs "Keys", JArr [])] <> Some (JArr l)) by (intros l; vm_compute; discriminate).
+      split; [exact P|]. split; [exact L|].
+      destruct (C09_text_jwk_import_rejections num0 oc (bs "{""Keys"":[]}")) as [_ [R _]]. exact (R _ P L). }
+    split.
+    { assert (P : json_parse_text num0 (bs "{""keys"":[]}") = Some [(s_keys, JArr [])]) by (vm_compute; reflexivity).
+      split; [exact P|].
+      destruct (C09_text_jwk_import_rejections num0 oc (bs "{""keys"":[]}")) as [_ [_ [R _]]]. apply (R _ P). vm_compute. reflexivity. }
+    split.
+    { destruct (json_parse_text num0 (jwk_text (bs ",""d"":""AQ"""))) as [f|] eqn:P; [|vm_compute in P; discriminate].
+      destruct (lookup s_keys f) as [[| | | |vs|]|] eqn:L; try (vm_compute in P; inversion P; subst f; vm_compute in L; discriminate).
+      destruct vs as [|v vs]; [vm_compute in P; inversion P; subst f; vm_compute in L; discriminate|].
+      assert (K : import_key oc v = None).
+      { vm_compute in P. inversion P; subst f. vm_compute in L. inversion L; subst v vs. vm_compute. reflexivity. }
+      exists f, (v :: vs), v. split; [reflexivity|]. split; [exact L|]. split; [left; reflexivity|]. split; [exact K|].
+      destruct (C09_text_jwk_import_rejections num0 oc (jwk_text (bs ",""d"":""AQ"""))) as [_ [_ [_ R]]].
+      apply (R f (v :: vs) v P L); [left; reflexivity|exact K]. }
+    split; vm_compute; reflexivity.
   Qed.
 End JsonExample.
